@@ -155,3 +155,51 @@ def check(db, rep):
         if name in methods:
             C14._closure(r6, methods[name], name)
     C07.refresh_rule(db, rep, r6, ModSets(db), ((C07.SCHEMA, C07._classify_schema, C07._families_schema),))
+    # list order of kinds (shared with C09 r4): the extraction keeps relative order through SortSubset only if the priority of kinds used when
+    # moving constituents agrees with the one used when inserting them
+    from rules import C09
+    C09.priority_rule(db, r6)
+    _maxpart_definedness(db, rep)
+
+
+def _maxpart_definedness(db, rep):
+    """r7: OpMaxPart::IsCorrectlyDefined evaluated for every kind of selected constituent: only base and constant sets are exempt from the
+    'all inputs selected' test; a structure, term, function, ... whose inputs are not all selected makes the selection inadmissible."""
+    from engine.evalmini import Interp, Obj, OutOfFragment, NOT_HANDLED, enum_values
+    r7 = rep.rule('r7', 'SELECTION: a maximal-part selection is admissible iff it is non-empty, every selected constituent exists and, unless it is a base or constant set, all its direct inputs are selected', 1)
+    f = db.fn(OPS + 'OpMaxPart::IsCorrectlyDefined', required=False)
+    if f is None:
+        r7.broken('anchor vanished: OpMaxPart::IsCorrectlyDefined')
+        return
+    CST = {k: v for k, v in enum_values(db, S + 'CstType').items() if not k.endswith('_')}
+    bad, cases = None, 0
+    try:
+        for kind, kv in sorted(CST.items()):
+            for exists in (True, False):
+                for closed in (True, False):
+                    cases += 1
+
+                    def on_call(it, fn, n, env, kv=kv, exists=exists, closed=closed):
+                        last = (n.get('cs') or '').split('::')[-1]
+                        if last == 'Contains':
+                            return exists
+                        if last == 'GetRS':
+                            return Obj(type=kv)
+                        if last == 'CheckCst':
+                            return closed
+                        return NOT_HANDLED
+                    this = Obj(arguments=[5], schema=Obj(__kind__='schema'))
+                    res = Interp(db, on_call=on_call).call(f, [], this)
+                    want = exists and (kind in ('base', 'constant') or closed)
+                    if bool(res) != want and bad is None:
+                        bad = 'selection {%s constituent%s%s} is %s' % (kind, '' if exists else ' that does not exist', '' if closed else ' whose inputs are not all selected', 'accepted' if res else 'refused')
+        res = Interp(db, on_call=lambda *a: NOT_HANDLED).call(f, [], Obj(arguments=[], schema=Obj()))
+        if res:
+            bad = bad or 'the empty selection is accepted'
+    except OutOfFragment as e:
+        r7.broken('OpMaxPart::IsCorrectlyDefined outside the evaluable fragment: %s' % e)
+        return
+    if bad:
+        r7.violation('IsCorrectlyDefined', '%s:%d' % (f.file, f.line), bad + ': the extracted schema then mentions names it does not contain')
+    else:
+        r7.ok('IsCorrectlyDefined', 'admissibility agrees with the definition on %d (kind, exists, inputs selected) cases' % cases, '%s:%d' % (f.file, f.line))
